@@ -44,6 +44,10 @@ fn text(structure: &mut Rng, content: &mut Rng, hostile: bool, multiline: bool) 
     for k in 0..n {
         if k > 0 && structure.chance(1, 6) {
             lines.push(String::new()); // blank line -> .PP in both variants
+        } else if k > 0 && structure.chance(1, 8) {
+            // a blank line that is not empty in the adversarial variant (mangen starts a paragraph
+            // at either: same emptiness)
+            lines.push(if hostile { (*content.pick(&[" ", "   ", "\t", " \t "])).to_string() } else { String::new() });
         }
         lines.push(line(content, hostile));
     }
